@@ -1972,3 +1972,91 @@ c11_append_read_fault!(c11_append_read_fault_k026, 26);
 /// C11 append, fault at I/O call 34.
 // @h prop=C11,C13 tier=quick t=300 mem=4 name=c11_append_read_fault_k034 uws="fn:^std::ptr::drop_glue::<std::io::Error>$:2"
 c11_append_read_fault!(c11_append_read_fault_k034, 34);
+
+/// one aligned entry at a concrete file offset with a concrete alignment; data symbolic
+fn aligned_case(base: u64, align: u16) {
+    let mut sink = Sink::<160>::with_base(base);
+    let mut w = core::mem::ManuallyDrop::new(ZipWriter::new(sink.handle()));
+    let (o1, _, _, _) = sym_opts();
+    let d0: u8 = kani::any();
+    let pad = match w.start_file_aligned("a", o1, align) {
+        Ok(p) => p,
+        Err(e) => {
+            core::mem::forget(e);
+            assert!(false, "a small alignment was refused");
+            return;
+        }
+    };
+    match w.write(&[d0]) {
+        Ok(n) => assert_eq!(n, 1),
+        Err(e) => {
+            core::mem::forget(e);
+            assert!(false, "write failed");
+        }
+    }
+    match w.finish() {
+        Ok(_) => {}
+        Err(e) => {
+            core::mem::forget(e);
+            assert!(false, "finish failed");
+            return;
+        }
+    }
+    let b = &sink.buf;
+    assert_eq!(le32(b, 0), SIG_LOCAL);
+    assert_eq!(le16(b, 26), 1);
+    let x = le16(b, 28) as usize;
+    assert_eq!(pad, x as u64);
+    let data_at = 31 + x;
+    if align >= 2 {
+        assert_eq!((base + data_at as u64) % (align as u64), 0, "entry data not aligned");
+        assert!(x == 0 || (x >= 4 && x < 4 + align as usize));
+    } else {
+        assert_eq!(x, 0);
+    }
+    if x > 0 {
+        assert_eq!(le16(b, 31), 0x617a);
+        assert_eq!(le16(b, 33) as usize, x - 4);
+    }
+    assert_eq!(b[data_at], d0);
+    let cd = data_at + 1;
+    assert_eq!(le32(b, cd), SIG_CENTRAL);
+    assert_eq!(le16(b, cd + 30), 0); // padding is local-only
+    assert_eq!(le32(b, cd + 42) as u64, base);
+    assert_eq!(le32(b, cd + 20), 1);
+}
+/// C17 alignment, enumerated: start_file_aligned with alignment 4 at file offsets 0..=3 (every
+/// residue of the unpadded data offset) plus alignments 0, 1 and 2: the data of the entry begins
+/// at a multiple of the alignment, the padding travels in a well-formed local-only extra record
+/// (id 0x617a) whose length is what the call returned, and the content byte (symbolic) is where
+/// the local header says. Alignment and offset are concrete per case (a symbolic padding length
+/// is a symbolic-size allocation and did not finish), so this harness decides the cases listed,
+/// not every alignment.
+// @h prop=C17 tier=quick t=2400 mem=8 uws="fn:^std::ptr::drop_glue::<std::io::Error>$:2;write19validate_extra_data\.0$:4;Iterator3any.*validate_extra_data:51"
+api_harness!(c17_aligned_enumerated_4, 12, {
+    aligned_case(0, 4);
+    aligned_case(1, 4);
+    aligned_case(2, 4);
+    aligned_case(3, 4);
+    aligned_case(0, 0);
+    aligned_case(5, 1);
+    aligned_case(0, 2);
+    aligned_case(1, 2);
+    kani::cover!(true);
+});
+/// C17 alignment, enumerated: alignment 8 at file offsets 0..=7 and alignment 3 at 0..=2.
+// @h prop=C17 tier=dev t=600 mem=8 uws="fn:^std::ptr::drop_glue::<std::io::Error>$:2;write19validate_extra_data\.0$:4;Iterator3any.*validate_extra_data:51"
+api_harness!(c17_aligned_enumerated_8_3, 16, {
+    aligned_case(0, 8);
+    aligned_case(1, 8);
+    aligned_case(2, 8);
+    aligned_case(3, 8);
+    aligned_case(4, 8);
+    aligned_case(5, 8);
+    aligned_case(6, 8);
+    aligned_case(7, 8);
+    aligned_case(0, 3);
+    aligned_case(1, 3);
+    aligned_case(2, 3);
+    kani::cover!(true);
+});
